@@ -42,6 +42,14 @@ doris_dialect.update_keywords_set_from_multiline_string(
     "reserved_keywords", doris_reserved_keywords
 )
 
+# Keywords which grammar elements of this dialect (including inherited
+# ones) refer to, but which are in neither keyword set.
+doris_dialect.sets("unreserved_keywords").update(
+    [
+        "OPTIMIZER_COSTS",
+    ]
+)
+
 
 # Add the engine types set for Doris
 doris_dialect.sets("engine_types").update(
@@ -279,7 +287,7 @@ class RangePartitionDefinitionSegment(BaseSegment):
             Sequence(
                 Bracketed(
                     Bracketed(Delimited(Ref("LiteralGrammar"))),
-                    ",",
+                    Ref("CommaSegment"),
                     Bracketed(Delimited(Ref("LiteralGrammar"))),
                 )
             ),
